@@ -26,7 +26,9 @@ CHECKS = {
         "tree-changing native kind (create/delete/move halves/paired move/root delete, x IN_ISDIR, both emitter modes) is "
         "translated on every path into a created/deleted/moved event naming the entry itself, primary before synthetic; and "
         "no pipeline stage between kernel and handler reorders or drops (append/popleft/in-place-replace only, FIFO queue "
-        "base, single consumer). Histories x timings x kernel behaviour are not decided.",
+        "base, single consumer; the delay queue hands out only the element it validated; the event queue skips only a pending "
+        "duplicate); and every directory whose changes should reach the stream gets a kernel watch under its current name (the "
+        "reader's bookkeeping contract, instances shared with C02). Histories x timings x kernel behaviour are not decided.",
         ref="§3/C01",
     ),
     "C02": dict(
@@ -65,8 +67,9 @@ CHECKS = {
         technique="lock-order graph over resolved calls, waker/must-reach analysis for every blocking site, monitor-discipline rules",
         text="Static analysis of the deadlock discipline: acyclic lock order, no join/blocking wait under a lock its waker needs, "
         "every untimed blocking site in a thread body has a waker that stop() must reach after the flag is set, untimed "
-        "Condition.wait only inside predicate loops whose predicate the notifiers write, callback lock re-entrant. Liveness "
-        "under the OS scheduler and anything in user handlers are not decided.",
+        "Condition.wait only inside predicate loops whose predicate the notifiers write, callback lock re-entrant, producers "
+        "never block on the (unbounded) event queue, stop path idempotent. Thorough tier cross-checks every inlined call edge "
+        "against mypy. Liveness under the OS scheduler and anything in user handlers are not decided.",
         ref="§3/C06",
     ),
     "C07": dict(
@@ -142,7 +145,8 @@ CHECKS = {
         technique="lock-set analysis over enumerated paths incl. explicit acquire/release; monitor-discipline and re-validation rules",
         text="Static analysis of DelayedQueue: every access to the deque is under the queue lock on every path, explicit "
         "acquires are released on every path, the wait predicate covers every notifier, writers notify, no sleep under the "
-        "lock, the head is re-validated by identity after re-acquiring, closed implies end marker, FIFO container operations. "
+        "lock, the head is re-validated by identity after re-acquiring, an index is used for deletion only inside the critical "
+        "section that found it, closed implies end marker, FIFO container operations. "
         "'Never early' (clock arithmetic) is not decided.",
         ref="§3/C17",
     ),
